@@ -203,7 +203,12 @@ class MultiDecoder(ContentDecoder):
         self._decoders = [_get_decoder(m.strip()) for m in modes.split(",")]
 
     def flush(self) -> bytes:
-        return self._decoders[0].flush()
+        # Flush in decoding order: what a decoder still holds is input for the
+        # decoders of the encodings that were applied before it.
+        data = b""
+        for d in reversed(self._decoders):
+            data = (d.decompress(data) if data else b"") + d.flush()
+        return data
 
     def decompress(self, data: bytes) -> bytes:
         for d in reversed(self._decoders):
